@@ -708,6 +708,8 @@ class ExprMixin:
                 return self.ok(st, objv.items[idx.value])
             except IndexError:
                 return [self.exc(st, "IndexError", site)]
+        if isinstance(objv, TupleV) and isinstance(idx, Sym):
+            return self.ok(st, Sym(("tupleitem", vrepr(idx)), {IMM}))
         if isinstance(objv, Ref):
             o = st.heap.get(objv.addr)
             if isinstance(o, DictO):
